@@ -4632,13 +4632,13 @@ set_xattrs(struct archive_write_disk *a)
 #endif
 		} else {
 #if ARCHIVE_XATTR_LINUX
-			e = lsetxattr(archive_entry_pathname(entry),
+			e = lsetxattr(a->name,
 			    name, value, size, 0);
 #elif ARCHIVE_XATTR_DARWIN
-			e = setxattr(archive_entry_pathname(entry),
+			e = setxattr(a->name,
 			    name, value, size, 0, XATTR_NOFOLLOW);
 #elif ARCHIVE_XATTR_AIX
-			e = lsetea(archive_entry_pathname(entry),
+			e = lsetea(a->name,
 			    name, value, size, 0);
 #endif
 		}
@@ -4739,7 +4739,7 @@ set_xattrs(struct archive_write_disk *a)
 				}
 			} else {
 				e = extattr_set_link(
-				    archive_entry_pathname(entry), namespace,
+				    a->name, namespace,
 				    name, value, size);
 			}
 			if (e != (int)size) {
